@@ -1,6 +1,7 @@
 (* Compositional membership lemmas for regex.lang (RelationAlgebra), derived from lang_eval. *)
 From RelationAlgebra Require Import kleene regex lang.
 From Coq Require Import List PArith.
+From Coq Require Bool.
 Import ListNotations.
 
 Lemma lang_var_intro (a : positive) : regex.lang (r_var a) [a].
@@ -30,3 +31,38 @@ Qed.
 (* inclusion of languages from an inequation proved by ka *)
 Lemma lang_incl (e f : regex') : e ≦ f -> forall w, regex.lang e w -> regex.lang f w.
 Proof. intros H w. exact (@lang_leq e f H w). Qed.
+
+(* ---- inversions ---- *)
+Lemma lang_var_inv (a : positive) w : regex.lang (r_var a) w -> w = [a].
+Proof. intros H. apply lang_eval in H. simpl in H. symmetry. exact H. Qed.
+
+Lemma lang_one_inv w : regex.lang (r_one : regex') w -> w = [].
+Proof. intros H. apply lang_eval in H. simpl in H. symmetry. exact H. Qed.
+
+Lemma lang_pls_inv (e f : regex') w : regex.lang (r_pls e f) w -> regex.lang e w \/ regex.lang f w.
+Proof. intros H. apply lang_eval in H. destruct H as [H|H]; [left|right]; apply lang_eval, H. Qed.
+
+Lemma lang_dot_inv (e f : regex') w : regex.lang (r_dot e f) w -> exists u v, w = u ++ v /\ regex.lang e u /\ regex.lang f v.
+Proof.
+  intros H. apply lang_eval in H. destruct H as [u Hu [v Hv E]]. exists u, v. split; [exact E|]. split; apply lang_eval; assumption.
+Qed.
+
+Lemma lang_str_inv (e : regex') w : regex.lang (r_str e) w -> exists ws, w = concat ws /\ Forall (regex.lang e) ws.
+Proof.
+  intros H. apply lang_eval in H. destruct H as [i Hi]. revert w Hi. induction i as [|i IH]; intros w Hi.
+  - exists []. split; [simpl in Hi; symmetry; exact Hi|constructor].
+  - destruct Hi as [u Hu [v Hv E]]. destruct (IH v Hv) as [ws [E2 F]]. exists (u :: ws). split; [cbn; rewrite <- E2; exact E|].
+    constructor; [apply lang_eval, Hu|exact F].
+Qed.
+
+(* a class: a sum of atoms; its words are single atoms *)
+Fixpoint cls_b (e : regex') : bool :=
+  match e with r_var _ => true | r_pls e f => cls_b e && cls_b f | _ => false end.
+
+Lemma cls_single e : cls_b e = true -> forall w, regex.lang e w -> exists a, w = [a].
+Proof.
+  induction e as [| |e IHe f IHf|e IHe f IHf|e IHe|a]; cbn [cls_b]; try discriminate.
+  - intros H w Hw. apply Bool.andb_true_iff in H. destruct H as [H1 H2]. apply lang_pls_inv in Hw. destruct Hw as [Hw|Hw]; [apply (IHe H1 w Hw)|apply (IHf H2 w Hw)].
+  - intros _ w Hw. exists a. apply lang_var_inv, Hw.
+Qed.
+
